@@ -292,6 +292,17 @@ func (r *replayer) budgetCase(c Case) {
 		if cg != nil {
 			if cg.Panic != "" || cg.Hang {
 				r.fail(Failure{Why: "compile-panic", Src: c.Src, Mode: m.String(), Got: cg})
+			} else if strings.Contains(cg.Err, "memory budget") {
+				// what a run needs and what the budget is are facts of the run: a program some run of which the
+				// reference admits is not refused for the budget before any run
+				for i := range c.Runs {
+					if c.Runs[i].Exp.Ok {
+						exp := c.Runs[i].Exp
+						r.fail(Failure{Why: "refused-at-compile-time", Src: c.Src, Mode: m.String(), Env: c.Runs[i].Env, Budget: c.Runs[i].Budget,
+							Exp: &exp, Got: cg})
+						break
+					}
+				}
 			} else {
 				r.sum.Skipped["compile-rejected"]++
 			}
